@@ -71,6 +71,13 @@ fn case(case: u64, rng: &mut Rng, rep: &mut Report) {
         sort: Some((field.clone(), order)),
         budget_per_thread: 15_000_000,
     };
+    // a third of the cases write multi-block doc stores: the remap of the temporary store at
+    // segment finalisation and the store side of sorted merges (block stacking on the disjoint
+    // path, document-wise copy on the k-way path) then cross block borders
+    let mut r2 = Rng::new(case ^ 0x17b1_0c4b_5107);
+    let blocksize = if r2.chance(1, 3) { *r2.pick(&[24usize, 64, 160, 400]) } else { 0 };
+    set_docstore_blocksize(blocksize);
+    rep.observe("docstore_blocksize", if blocksize == 0 { "default".to_string() } else { blocksize.to_string() });
     let mut ex = match Exec::create(Box::new(RamDirectory::create()), cfg.clone(), None) {
         Ok(e) => e,
         Err(e) => {
